@@ -157,7 +157,7 @@ def register_dispatch(S):
                     "arguments -> KeyError/TypeError and NO handler runs; otherwise exactly one handler runs once "
                     "(ghost event HandlerRun) and returns or raises anything; only the close handler closes",
                outcomes=[
-                   {"label": "unknown handler", "raise": "KeyError", "when": ["not known_handler(handler)"]},
+                   {"label": "unknown handler", "raise": "KeyError", "when": ["not known_handler(handler)"], "at": "lookup"},
                    {"label": "not callable that way", "raise": "TypeError"},
                    {"label": "returns", "when": RUNS, "events": [("HandlerRun", "handler", "args")], "modifies": HR_MOD, "assume": HR_INV},
                    {"label": "raises", "raise": "*", "when": RUNS, "events": [("HandlerRun", "handler", "args")],
